@@ -27,7 +27,7 @@ func envInt(name string, def int) int {
 // runStress returns (arrivals, misdelivered, first misdelivery description).
 func runStress(t *testing.T, batch string, nSess int, dur time.Duration, serverProto string) (int, int, string) {
 	scn := scenarioCounter.Add(1) + uint32(os.Getpid())<<12
-	w, err := udpsvc.NewWorld(scn, targetBase, 2)
+	w, err := udpsvc.NewWorld(scn, targetBase, 2, false)
 	if err != nil {
 		t.Skipf("setup: %v", err)
 	}
@@ -136,12 +136,7 @@ func TestTwoNamesStress(t *testing.T) {
 	for _, batch := range []string{"no", "sendmmsg"} {
 		n, bad, first := runStress(t, batch, nSess, time.Duration(ms)*time.Millisecond, "socks5")
 		if bad > 0 {
-			if ev.IsKnown("C11", sigSharedPacker) {
-				recStress.KnownHit(sigSharedPacker)
-				recStress.Label("known:"+sigSharedPacker+":misdelivery", int64(bad))
-				continue
-			}
-			t.Fatalf("SIG=C11/%s detector=misdelivery (normal build): %d of %d datagrams reached the wrong target; first: %s", sigSharedPacker, bad, n, first)
+			t.Fatalf("SIG=C11/misdelivered detector=misdelivery under the two-names stress (the workload aimed at the packer's shared resolution cache): %d of %d datagrams reached the wrong target; first: %s", bad, n, first)
 		}
 		recStress.Case(fmt.Sprintf("%s|%d", batch, nSess), n >= 10000, "batch:"+batch)
 	}
